@@ -53,9 +53,7 @@ Section C02.
   (* SignJSON refuses an object only when its signatures member is not a signature map *)
   Theorem sign_succeeds_iff_signatures_readable : forall name kid k m,
     sign_value name kid k (JObj m) = None <-> sigs_of m = None.
-  Proof.
-    intros. rewrite (sign_value_obj sign). destruct (sigs_of m); split; congruence.
-  Qed.
+  Proof. intros. apply sign_none_iff. Qed.
 
   (* ... still after any list of further signers with other (name, key ID) pairs has signed,
      each of which succeeds *)
@@ -63,14 +61,7 @@ Section C02.
     sign_value name kid k (JObj m) = Some o ->
     Forall (fun s : signer => (fst (fst s), snd (fst s)) <> (name, kid)) more ->
     exists o', sign_all more o = Some o' /\ verify_value name kid (pub k) o' = true.
-  Proof.
-    intros name kid k m o more S F.
-    destruct (sign_value_result_is_object pub sign verify sig_size_ok pk_size_ok IS _ _ _ _ _ S) as [m' [-> [sm Sm]]].
-    destruct (sign_all_total pub sign verify sig_size_ok pk_size_ok IS more m' sm Sm) as [o' A].
-    exists o'. split; [exact A|].
-    rewrite (verify_after_more_signers pub sign verify sig_size_ok pk_size_ok IS more name kid (pub k) m' o' F A).
-    eapply sign_then_verify_value; eauto.
-  Qed.
+  Proof. intros. eapply more_signers_verify; eauto. Qed.
 
   (* ... and after unsigned is set to anything, or removed; more generally whenever the
      signatures member and the members other than signatures / unsigned are what they were *)
@@ -81,21 +72,7 @@ Section C02.
     (forall m2, assoc_last k_signatures m2 = assoc_last k_signatures m1 ->
                 strip_members m2 = strip_members m1 ->
                 verify_value name kid (pub k) (JObj m2) = true).
-  Proof.
-    intros name kid k m m1 S.
-    assert (G : forall m2, assoc_last k_signatures m2 = assoc_last k_signatures m1 ->
-                strip_members m2 = strip_members m1 ->
-                verify_value name kid (pub k) (JObj m2) = true).
-    { intros m2 A B. rewrite (verify_depends_on_signatures_and_content verify sig_size_ok pk_size_ok name kid (pub k) m2 m1 A B).
-      eapply sign_then_verify_value; eauto. }
-    split; [|split]; [| |exact G].
-    - intro u. simpl. apply G.
-      + apply assoc_last_set_other. intro E. pose proof uns_ne_sig as X. rewrite E, bytes_eqb_refl in X. discriminate.
-      + apply strip_members_set_meta. apply is_meta_uns.
-    - simpl. apply G.
-      + rewrite (assoc_last_filter (fun x => negb (bytes_eqb k_unsigned x)) k_signatures m1), uns_ne_sig. reflexivity.
-      + apply strip_members_del_meta. apply is_meta_uns.
-  Qed.
+  Proof. intros. eapply unsigned_change_verify; eauto. Qed.
 
   (* signing keeps the signed members, unsigned and every earlier signature exactly, and adds
      the signer's own signature over the canonical form of the signed members *)
@@ -120,18 +97,7 @@ Section C02.
        verify_value name' kid' p o = verify_value name' kid' p (JObj m)) /\
     (forall name' kid' p, (name', kid') <> (name, kid) -> sig_at name' kid' (JObj m) = None ->
        verify_value name' kid' p o = false).
-  Proof.
-    intros name kid k m o S.
-    assert (B : forall name' kid' p, (name', kid') <> (name, kid) ->
-       verify_value name' kid' p o = verify_value name' kid' p (JObj m)).
-    { intros. eapply sign_keeps_other_verdicts; eauto. }
-    split; [|split]; [|exact B|].
-    - intros p N. destruct (verify_value name kid p o) eqn:V; [|reflexivity]. exfalso.
-      destruct (sign_preserves pub sign verify sig_size_ok pk_size_ok IS _ _ _ _ _ S) as [m' [sm [_ [_ [_ [_ [A _]]]]]]].
-      destruct (verify_honest_signature pub sign verify sig_size_ok pk_size_ok IS _ _ _ _ _ _ A V) as [P _].
-      contradiction.
-    - intros name' kid' p N A. rewrite (B _ _ _ N), (verify_value_spec verify sig_size_ok pk_size_ok), A. reflexivity.
-  Qed.
+  Proof. intros. eapply wrong_identity; eauto. Qed.
 
   (* soundness, in general: whatever VerifyJSON accepts carries, under that name and key ID, a
      signature made with the secret key of the presented public key over the canonical form of
@@ -148,14 +114,7 @@ Section C02.
     sig_at name kid v' = sig_at name kid o ->
     canon_print (strip v') <> canon_print (strip (JObj m)) ->
     verify_value name kid p v' = false.
-  Proof.
-    intros name kid k m o v' p S A N.
-    destruct (verify_value name kid p v') eqn:V; [|reflexivity]. exfalso.
-    destruct (sign_preserves pub sign verify sig_size_ok pk_size_ok IS _ _ _ _ _ S) as [m' [sm [_ [_ [_ [_ [A' _]]]]]]].
-    rewrite A' in A.
-    destruct (verify_honest_signature pub sign verify sig_size_ok pk_size_ok IS _ _ _ _ _ _ A V) as [_ C].
-    apply N. exact C.
-  Qed.
+  Proof. intros. eapply tamper_canonical; eauto. Qed.
 
   (* ... hence on every value that differs from the signed object in any member other than
      signatures and unsigned (value change, insertion, deletion, nested edit: the stripped values
@@ -209,9 +168,7 @@ Section C02.
   Proof.
     intros name m. split.
     - intros ks H. apply list_key_ids_lists_the_members. exact H.
-    - intros kid p V. rewrite (verify_value_spec verify sig_size_ok pk_size_ok) in V.
-      destruct (sig_at name kid (JObj m)) as [s|] eqn:A; [|discriminate].
-      eapply sig_at_is_listed. exact A.
+    - intros kid p V. eapply verified_key_id_is_listed. exact V.
   Qed.
 End C02.
 
